@@ -25,6 +25,20 @@ let receiver_of r =
 let elem_of_code = function
   | 0 -> EInt | 1 -> EConstInt | 2 -> ELRef | 3 -> EConstLRef | 4 -> ERRef | 5 -> EMoveOnly | _ -> ECopyOnly
 
+(* op expl: element code -> conversion kinds (default, T const& -> T, U const& -> T, U&& -> T); the table in the header of
+   props/C20/c20_expl.inc, compared with the compiler by op explelem *)
+let edesc_of_code c =
+  let mk d s cr rr = { q_def = d; q_self = s; q_cref = cr; q_rref = rr } in
+  match c with
+  | 0 -> mk CImpl CImpl CImpl CImpl
+  | 1 -> mk CExpl CImpl CExpl CExpl
+  | 2 -> mk CNone CImpl CNone CNone
+  | 3 -> mk CImpl CExpl CExpl CImpl
+  | 4 -> mk CNone CImpl CNone CImpl
+  | 5 -> mk CExpl CImpl CImpl CNone
+  | 6 -> mk CImpl CImpl CImpl CImpl
+  | _ -> mk CNone CImpl CExpl CExpl
+
 let palette_sets pal =
   (* (stateless, tracked) target ids, see make_target in c20_ipf.inc *)
   match pal with
@@ -690,6 +704,28 @@ let run_case op t =
               if scen = 1 then join [ "ok"; "-1"; str_of_z x.osize; (if str_of_z x.osize = "0" then "0" else str_of_z x.ofront); str_of_z x.odepth ]
               else join [ "ok"; str_of_z x.ohow; str_of_z x.osize; str_of_z x.ofront; str_of_z x.odepth ]),
          "na")
+  | "expl" ->
+      (* the conditional explicit-specifier of the pair / tuple constructors (ModelExpl / SpecExpl): (constructible, implicit)
+         of the destination type from the site's source expression; element codes = the table of c20_expl.inc *)
+      let site = next_int t in
+      let n = next_int t in
+      let codes = List.init (max n 0) (fun _ -> next_int t) in
+      let known = List.for_all (fun c -> c >= 0 && c < 8) codes in
+      let third_ok = n < 3 || List.mem (List.nth codes 2) [ 0; 1; 2; 3; 7 ] in
+      if site < 0 || n < 0 || n > 3 || not known || not third_ok then ("skip", "skip") else begin
+        let es = List.map edesc_of_code codes in
+        let pr = function Some (c, i) -> join [ "ok"; b2s c; b2s i ] | None -> "skip" in
+        (pr (expl_case_m (nat_of_int site) es), pr (expl_case_s (nat_of_int site) es))
+      end
+  | "explelem" ->
+      (* the element table itself against the compiler (reference and spec legs na): default, T const& -> T, U const& -> T,
+         U&& -> T, and U& -> T (= U const& -> T for every element of the table) *)
+      let code = next_int t in
+      if code < 0 || code >= 8 then ("skip", "na") else begin
+        let e = edesc_of_code code in
+        let l = function CNone -> "N" | CExpl -> "E" | CImpl -> "I" in
+        (join [ "ok"; l e.q_def; l e.q_self; l e.q_cref; l e.q_rref; l e.q_cref ], "na")
+      end
   | _ -> raise Not_found
 
 let () = main run_case
